@@ -6,7 +6,8 @@ cd "$(dirname "$0")/.."
 export GOFLAGS=-mod=mod GOPROXY=off GOSUMDB=off GOTOOLCHAIN=local CGO_ENABLED=0
 mkdir -p build/bin evidence replays coq/theories/Gen
 cp /repo/go.sum harness/go.sum
-(cd harness && go build -tags verif -o ../build/bin/ ./cmd/...)
+(cd harness && go build -tags verif -o ../build/bin/ ./cmd/...) || echo "setup: some harness binaries did not build (reported by the affected checks)"
 build/bin/extract -repo /repo -cfg harness/extract.d -out coq/theories/Gen -report build/extract_report.json
-(cd coq && timeout 3000 make -j16 all)
+# -k: a proof that no longer compiles must not stop the setup; the check of its property reports it
+(cd coq && make Makefile.coq >/dev/null && timeout 3000 make -f Makefile.coq -k -j16 all) || echo "setup: some Coq files did not compile (reported by the affected checks)"
 echo setup done
